@@ -304,8 +304,13 @@ class _FnAnalysis(object):
             if isinstance(n, ast.Assign) and len(n.targets) == 1 and \
                     isinstance(n.targets[0], ast.Name):
                 nm = n.targets[0].id
-                isb = isinstance(n.value, ast.Constant) and \
-                    isinstance(n.value.value, bool)
+                # True / False, or an expression that yields a truth value
+                # (a comparison, a negation): unknown until it is tested
+                isb = (isinstance(n.value, ast.Constant) and
+                       isinstance(n.value.value, bool)) or isinstance(
+                    n.value, ast.Compare) or (
+                    isinstance(n.value, ast.UnaryOp) and
+                    isinstance(n.value.op, ast.Not))
                 assigned.setdefault(nm, []).append(isb)
             elif isinstance(n, (ast.AugAssign, ast.For, ast.With)):
                 for t in ast.walk(n.target if not isinstance(n, ast.With)
@@ -756,7 +761,9 @@ class _FnAnalysis(object):
                 isinstance(n.ast.targets[0], ast.Name) and \
                 n.ast.targets[0].id in self.flags:
             i = self.flags.index(n.ast.targets[0].id)
-            key = key[:i] + (bool(n.ast.value.value),) + key[i + 1:]
+            v_ = n.ast.value
+            key = key[:i] + ((bool(v_.value) if isinstance(v_, ast.Constant)
+                              else None),) + key[i + 1:]
         return key, env2
 
 
